@@ -437,6 +437,9 @@ fn connect_err(rng: &mut Rng) -> ConnectError {
 }
 
 pub fn run(ctx: &mut Ctx) {
+    if ctx.mode.as_deref() == Some("net") {
+        return super::c11net::run(ctx);
+    }
     let rt = act::runtime(2);
     let three = ctx.mode.as_deref() == Some("three");
     rt.block_on(async {
